@@ -508,7 +508,7 @@ def ro_trace(seed, n_events=250, workdir=None, keep_obs=False, listeners=()):
     rec.keep_obs = keep_obs
     rec.listeners = list(listeners)
     sch = Scheduler(rec, rng, voters)
-    sch.opts = dict(big=rng.random() < 0.2, budget=rng.random() < 0.2)
+    sch.opts = dict(big=rng.random() < 0.2, budget=rng.random() < 0.2, raises=(seed % 4 == 0))
     rec.opts = sch.opts
     n_ro = rng.choice([1, 1, 2, 3])
     ros = [RO_BASE + i for i in range(n_ro)]
@@ -659,7 +659,7 @@ def journal_trace(seed, n_events=300, workdir=None, keep_obs=False, listeners=()
     rec.keep_obs = keep_obs
     rec.listeners = list(listeners)
     sch = Scheduler(rec, rng, voters)
-    sch.opts = dict(kill=True, big=rng.random() < 0.2)
+    sch.opts = dict(kill=True, big=rng.random() < 0.2, raises=(seed % 4 == 0))
     rec.opts = sch.opts
     sch.boot()
     while rec.total_events() < n_events:
@@ -707,7 +707,7 @@ def killpoint_trace(seed, n_events=300, workdir=None, keep_obs=False, listeners=
     rec.keep_obs = keep_obs
     rec.listeners = list(listeners)
     sch = Scheduler(rec, rng, voters)
-    sch.opts = dict(big=rng.random() < 0.2)
+    sch.opts = dict(big=rng.random() < 0.2, raises=(seed % 4 == 0))
     rec.opts = sch.opts
     sch.boot()
     sim = rec.sim
@@ -806,7 +806,7 @@ def lag_trace(seed, n_events=300, workdir=None, keep_obs=False, listeners=()):
     rec.keep_obs = keep_obs
     rec.listeners = list(listeners)
     sch = Scheduler(rec, rng, voters)
-    sch.opts = dict(big=rng.random() < 0.2)
+    sch.opts = dict(big=rng.random() < 0.2, raises=(seed % 4 == 0))
     rec.opts = sch.opts
     sim = rec.sim
     sch.boot()
